@@ -14,3 +14,34 @@ claim('C14', 'property-based round-trip/differential testing of is_path methods 
       'context windows are recomputed from re.finditer spans; invalid window sizes must raise the documented exceptions.',
       'trusts re.finditer spans on str(p) (C11 checks the matching methods themselves) and Python text-mode decoding',
       'DESIGN.md section 5 C14')
+
+claim('C03', 'property-based totality testing of the whole public API surface and of expression trees (Hypothesis, introspected targets, per-shard hash seeds)',
+      'Every public constructor / pattern-building method (found by introspection, unknown parameters are a harness error) is called with '
+      'documented kinds of valid and invalid arguments; DSL expression trees and class-algebra expressions likewise. The result must be one '
+      'of pregex\'s own exceptions or a Pregex that compiles under M|S and whose get_pattern() is printable and equivalent.',
+      'only argument kinds the documentation describes are generated; Backreference/Conditional exempt from stand-alone compilation; 16-64 hash seeds sampled',
+      'DESIGN.md section 5 C03')
+claim('C06', 'property-based testing with a whole-code-point-range membership oracle (Hypothesis + complete enumeration of named classes and character pairs)',
+      'The set matched by each constructed class is measured over all 1,114,112 code points (scan, not sample) and compared with the interval-set '
+      'model of the constructor call; named classes and tokens and all ordered pairs of a 24-character metacharacter alphabet are enumerated '
+      'completely; invalid arguments must raise the documented exception. Each shard runs under its own PYTHONHASHSEED.',
+      'Unicode-only members of \\d \\s \\w are masked as the property states; name-only alphabets use (must, may) bounds; re is the membership oracle',
+      'DESIGN.md section 5 C06')
+claim('C07', 'property-based model-based testing of class algebra against interval-set arithmetic over all code points (Hypothesis, per-shard hash seeds)',
+      'Generated |, -, ~ expressions over constructor leaves, str/token operands and overlapping/adjacent ranges are compared, over the whole '
+      'code-point range, with interval-set algebra on the measured leaf sets; exception type must equal the model\'s (EmptyClass exactly when '
+      'nothing is left, mixed polarity, Any, global word char); A|B vs B|A and ~~A are asserted directly.',
+      'leaf sets are measured from the leaves\' own emitted text (C06 owns the constructors); 16-64 hash seeds sampled, not all 2^32',
+      'DESIGN.md section 5 C07')
+claim('C09', 'property-based testing with a three-valued repeatability oracle (Hypothesis + complete enumeration of short metacharacter literals)',
+      'Every quantifier spelling is applied to all literals of length <= 2 (quick) / <= 3 (thorough) over a 17-character metacharacter alphabet, '
+      'to generated assertion-free trees and to direct anchor / positive-lookaround instances (also on the empty pattern); '
+      'CannotBeRepeatedException must be raised exactly for repeating quantifiers on direct assertions and never for assertion-free operands.',
+      'operands that merely contain an anchor below the top node are unspecified and not judged',
+      'DESIGN.md section 5 C09')
+claim('C10', 'property-based testing with a structural width oracle cross-checked against re (Hypothesis)',
+      'Generated assertion trees (literals and classes full of ? * + { } characters, exact/variable quantifiers, equal/unequal alternations, nested '
+      'assertions) go through the four lookbehind constructors and methods; NonFixedWidthPatternException must be raised iff the structural '
+      'width is not a single value, and accepted results must compile and match like the reference.',
+      'width calculus is re-validated against re._parser getwidth() on every case; backreferences inside assertions unspecified',
+      'DESIGN.md section 5 C10')
